@@ -356,3 +356,42 @@ Theorem C19_plain_body_shape : forall i c,
                  expl_of c i ++ [10; 10; 10] ++ or_empty (i_detail i) ++ [10] ++ or_empty (i_comment i) ++ [10]))).
 Proof. exact plain_body_shape. Qed.
 Print Assumptions C19_plain_body_shape.
+
+(* sixth round: whatever Content-Type / charset a NewResponse subscriber, a response callback or a
+   tween wrote on the exception object before Router.__call__ calls it, the client gets the response
+   labelled with the form prepare() renders (classes with a body) *)
+Theorem C19_relabel_irrelevant : forall neg c x ct cs,
+  c_empty c = false ->
+  i_offers (x_in x) = neg (env_get accept_key accept_default (i_environ (x_in x))) offers ->
+  rmap fst (gen_call neg (set_resp (ref_obj_x c x) ct cs []) (i_environ (x_in x))) =
+  rmap fst (gen_call neg (ref_obj_x c x) (i_environ (x_in x))).
+Proof. exact relabel_irrelevant. Qed.
+Print Assumptions C19_relabel_irrelevant.
+
+(* sixth round: the raise sites outside httpexceptions.py (router not-found, static view: missing / out of
+   bounds / add-slash redirect, append-slash Not Found view): the argument expressions regenerated from
+   router.py / static.py / view.py equal the reference *)
+Theorem C19_sites_generated_are_model : forall r,
+  gen_site_router r = site_router r /\ gen_site_static_missing r = site_static_missing r /\
+  gen_site_static_oob r = site_static_oob r /\ gen_site_static_slash r = site_static_slash r /\
+  gen_site_append_slash r = site_append_slash r.
+Proof. exact sites_generated_are_model. Qed.
+Print Assumptions C19_sites_generated_are_model.
+
+(* no site passes a body template, a comment, an explanation or headers; the detail is a request
+   property behind a fixed prefix *)
+Theorem C19_sites_plain_inputs : forall name f r en ofs,
+  site_ref name = Some f ->
+  let i := input_of (f r) en ofs in
+  i_tmpl i = None /\ i_comment i = None /\ i_expl i = None /\ i_headers i = [] /\
+  (i_detail i = None \/ exists pre, i_detail i = Some (pre ++ r_path_info r) \/ i_detail i = Some (pre ++ r_url r)).
+Proof. exact sites_plain_inputs. Qed.
+Print Assumptions C19_sites_plain_inputs.
+
+(* end to end: regenerated site expression, then regenerated constructor / prepare / __call__ = the
+   specification applied to what the reference site raises *)
+Theorem C19_site_model_is_spec : forall name g f r en ofs,
+  site_gen name = Some g -> site_ref name = Some f ->
+  model (input_of (g r) en ofs) = spec (input_of (f r) en ofs).
+Proof. exact site_model_is_spec. Qed.
+Print Assumptions C19_site_model_is_spec.
